@@ -141,6 +141,15 @@ fn ty_tree<'tcx>(tcx: TyCtxt<'tcx>, t: Ty<'tcx>, depth: usize) -> J {
     }
 }
 
+#[derive(Default)]
+struct BoundState<'tcx> {
+    impls: std::collections::BTreeSet<String>,
+    closures: std::collections::BTreeSet<String>,
+    wild: std::collections::BTreeSet<String>,
+    dynw: std::collections::BTreeSet<String>,
+    seen: std::collections::HashSet<ty::TraitRef<'tcx>>,
+}
+
 struct BodyCx<'a, 'tcx> {
     tcx: TyCtxt<'tcx>,
     body: &'a mir::Body<'tcx>,
@@ -279,6 +288,25 @@ impl<'a, 'tcx> BodyCx<'a, 'tcx> {
             if !bounds.is_empty() {
                 v.push(("bounds", J::A(bounds)));
             }
+            // precise resolution of the bounds through the trait solver
+            {
+                let mut st = BoundState::default();
+                let clauses: Vec<ty::Clause<'tcx>> = preds.predicates.iter().map(|c| c.skip_norm_wip()).collect();
+                self.collect_bound_impls(&clauses, &mut st, 0);
+                if !st.impls.is_empty() {
+                    v.push(("bimpls", J::A(st.impls.iter().map(J::s).collect())));
+                }
+                if !st.closures.is_empty() {
+                    v.push(("bcl", J::A(st.closures.iter().map(J::s).collect())));
+                }
+                if !st.wild.is_empty() {
+                    v.push(("bwild", J::A(st.wild.iter().map(J::s).collect())));
+                }
+                if !st.dynw.is_empty() {
+                    v.push(("bdyn", J::A(st.dynw.iter().map(J::s).collect())));
+                }
+                v.push(("bprecise", J::B(true)));
+            }
             if let Some(tr) = tcx.trait_of_assoc(did) {
                 v.push(("trait", J::s(pretty_path(tcx, tr))));
             }
@@ -324,8 +352,8 @@ impl<'a, 'tcx> BodyCx<'a, 'tcx> {
         // named constant?
         if let mir::Const::Unevaluated(u, _) = c.const_ {
             v.push(("def", J::s(pretty_path(tcx, u.def))));
-            if u.promoted.is_some() {
-                v.push(("promoted", J::B(true)));
+            if let Some(pi) = u.promoted {
+                v.push(("promoted", J::I(pi.as_usize() as i128)));
             }
         }
         if let Some(sdid) = c.check_static_ptr(tcx) {
@@ -382,6 +410,108 @@ impl<'a, 'tcx> BodyCx<'a, 'tcx> {
             }
         }
         J::O(v)
+    }
+
+    fn collect_bound_impls(&self, clauses: &[ty::Clause<'tcx>], st: &mut BoundState<'tcx>, depth: usize) {
+        let tcx = self.tcx;
+        if depth > 12 {
+            st.wild.insert("<depth>".to_string());
+            return;
+        }
+        for c in clauses {
+            let Some(tp) = c.as_trait_clause() else { continue };
+            let tr0 = tcx.instantiate_bound_regions_with_erased(tp).trait_ref;
+            let tr0 = tcx.erase_and_anonymize_regions(tr0);
+            for sup in rustc_type_ir::elaborate::supertraits(tcx, ty::Binder::dummy(tr0)) {
+                let tr = tcx.instantiate_bound_regions_with_erased(sup);
+                let tr = tcx.erase_and_anonymize_regions(tr);
+                self.bound_one(tr, st, depth);
+            }
+        }
+    }
+
+    fn bound_one(&self, tr: ty::TraitRef<'tcx>, st: &mut BoundState<'tcx>, depth: usize) {
+        use rustc_middle::ty::TypeVisitableExt;
+        let tcx = self.tcx;
+        let tr = match tcx.try_normalize_erasing_regions(self.tenv, ty::Unnormalized::new_wip(tr)) {
+            Ok(t) => t,
+            Err(_) => {
+                st.wild.insert(pretty_path(tcx, tr.def_id));
+                return;
+            }
+        };
+        if tr.has_aliases() || tr.has_infer() || tr.has_placeholders() || matches!(tr.self_ty().kind(), ty::Param(_)) {
+            st.wild.insert(pretty_path(tcx, tr.def_id));
+            return;
+        }
+        if !st.seen.insert(tr) {
+            return;
+        }
+        // marker / auto traits have no methods
+        if tcx.trait_is_auto(tr.def_id) || tcx.is_lang_item(tr.def_id, rustc_hir::LangItem::Sized) {
+            return;
+        }
+        let self_ty = tr.self_ty();
+        match self_ty.kind() {
+            ty::Closure(d, _) => {
+                st.closures.insert(def_id_str(tcx, *d));
+            }
+            ty::FnDef(d, _) => {
+                st.closures.insert(def_id_str(tcx, *d));
+            }
+            ty::Dynamic(..) => {
+                st.dynw.insert(pretty_path(tcx, tr.def_id));
+                return;
+            }
+            _ => {}
+        }
+        match tcx.codegen_select_candidate(self.tenv.as_query_input(tr)) {
+            Ok(src) => match src {
+                rustc_middle::traits::ImplSource::UserDefined(d) => {
+                    if d.impl_def_id.is_local() {
+                        st.impls.insert(def_id_str(tcx, d.impl_def_id));
+                    }
+                    let preds = tcx.predicates_of(d.impl_def_id).instantiate(tcx, d.args);
+                    let clauses: Vec<ty::Clause<'tcx>> = preds.predicates.iter().map(|c| c.skip_norm_wip()).collect();
+                    self.collect_bound_impls(&clauses, st, depth + 1);
+                }
+                rustc_middle::traits::ImplSource::Param(_) => {
+                    st.wild.insert(pretty_path(tcx, tr.def_id));
+                }
+                rustc_middle::traits::ImplSource::Builtin(..) => {
+                    // builtin impls (Clone/Copy for tuples, arrays, closures; Fn* for closures and fn items):
+                    // component types must implement the same trait
+                    match self_ty.kind() {
+                        ty::Tuple(ts) => {
+                            for t in ts.iter() {
+                                if tr.args.len() == 1 {
+                                    let ntr = ty::TraitRef::new(tcx, tr.def_id, [t]);
+                                    self.bound_one(ntr, st, depth + 1);
+                                }
+                            }
+                        }
+                        ty::Array(t, _) | ty::Slice(t) => {
+                            if tr.args.len() == 1 {
+                                let ntr = ty::TraitRef::new(tcx, tr.def_id, [*t]);
+                                self.bound_one(ntr, st, depth + 1);
+                            }
+                        }
+                        ty::Closure(_, cargs) => {
+                            if tr.args.len() == 1 {
+                                for t in cargs.as_closure().upvar_tys().iter() {
+                                    let ntr = ty::TraitRef::new(tcx, tr.def_id, [t]);
+                                    self.bound_one(ntr, st, depth + 1);
+                                }
+                            }
+                        }
+                        _ => {}
+                    }
+                }
+            },
+            Err(_) => {
+                st.wild.insert(pretty_path(tcx, tr.def_id));
+            }
+        }
     }
 
     fn adts_in(&self, t: Ty<'tcx>) -> J {
@@ -797,6 +927,17 @@ impl rustc_driver::Callbacks for Cb {
                 v.push(("freeze", J::B(t.is_freeze(tcx, tenv))));
             }
             v.push(("body", cx.dump()));
+            if use_opt {
+                let proms = tcx.promoted_mir(did);
+                let mut pv = Vec::new();
+                for pb in proms.iter() {
+                    let pcx = BodyCx { tcx, body: pb, def: did, tenv };
+                    pv.push(pcx.dump());
+                }
+                if !pv.is_empty() {
+                    v.push(("promoted", J::A(pv)));
+                }
+            }
             fns.push(J::O(v));
         }
 
